@@ -93,6 +93,20 @@ CHECKS = {
         text="TLC checks GateExact, TrainAtLeastOne, CalAtLeastOne, SplitPartitions, QuantileLevelBelowOne, RankExists for all 998 permille levels x n<=600 (3000 in thorough) and every tie resolution, plus multi-level requests for the three estimators and duplicate ids; the F6 switch reproduces the zero-training-rows counterexample; the real get_minimum_reporting_units/_compute_conf_frac are validated on the whole grid, ~5,400 real split probes with real regressions and 344 client runs around the gate (all three estimators, duplicates) are validated by the trace spec.",
         note="Float ties admit the named neighbour (e.g. minimum 20 at alpha 0.9, pinned by the repo's tests).",
     ),
+    "C15": dict(
+        engine="gaussian",
+        technique="TLA+ spec (GaussianFallback.tla: recursive fit on an explicit call stack, matching loop) model-checked by TLC; exported group structures replayed into the real GaussianElectionModel.get_aggregate_prediction_intervals; recorded real gaussian runs validated by Trace_GaussianFallback",
+        design_ref="DESIGN.md §5 C15, docs/gaussian.md",
+        text="TLC checks ExactlyOne, RightPool, NoSibling, FloorAligned (and machinery lemmas) for every group structure of 2 states x 2 subgroups over calibration counts {0,1,2,9,10,11} and the three-column lists district offices use (405k + 113k states; 2x3 and 2x2x2 in thorough); a <= variant of the design reproduces a RightPool counterexample; 1,500 (28,383) exported structures are replayed into the real aggregate function, the pool that served each group is read off the model frame and the bound is recomputed from the logged pool statistics with the closed form; 21 (200) real client runs are recorded and validated.",
+        note="Normal quantile, square root and the bootstrapped scale are outside TLA+: the spec decides which statistics a group receives, the projector checks the closed form (trusted base scipy.stats.norm.ppf); quick tier passes a smaller num_iterations to boot_sigma.",
+    ),
+    "C17": dict(
+        engine="versions",
+        technique="TLA+ spec (VersionedMargin.tla with exact rationals) model-checked by TLC over all small version histories; every exported history replayed into the real compute_versioned_margin_estimate with float64 and int64 columns; recorded random histories and the repository's versioned fixtures validated by Trace_VersionedMargin",
+        design_ref="DESIGN.md §5 C17, docs/versions.md",
+        text="TLC checks Convex, BeforeFirst, EveryPercent, CorrectionDef, AllMissing, NeverUsed on every history of <=3 versions (turnout <=4; <=6 and 4 versions in thorough: 14.5M states), incl. repeats, zero-vote versions, downward revisions and turnout revised to zero; configs with the repaired defects switched back on (integer truncation, monotonicity on the re-scaled axis) reproduce the V1/V2 counterexamples; all 33,680 exported histories are replayed twice (float64 and int64 columns) into the real function and compared as rationals; 643 (5,003) random traces and the repo's three versioned fixtures are validated; the extrapolation filter is bound on 480 groups.",
+        note="'Latest percent' is the re-scaled one; at percent 0 the code's division guard gives margin 0; _extrapolate_unit_margin needs a pandas-2 groupby.apply shim to run at all under the installed pandas 3 (observation outside C17).",
+    ),
     "C16": dict(
         engine="featurizer",
         technique="TLA+ spec (FeaturizerSpec.tla, one action per Featurizer step) model-checked by TLC; exported terminal states replayed into the real Featurizer with exact rational comparison; Featurizer calls recorded in real estimate runs validated by Trace_FeaturizerSpec",
@@ -100,12 +114,26 @@ CHECKS = {
         text="TLC checks SameColumns, NonConstant, OneAbsorbed, SeenLevel, UnseenLevel, Centered, OtherPooled, StateCopiesOnlyReporting, SliceDiscipline on all row/level assignments of the quick families (~250k states; 7.4M in thorough); 11,992 exported terminal states are replayed into the real Featurizer and compared (column lists, matrices as 0/1/<<1,k+1>>, centred values as exact rationals); the three callers' positional slicing is validated on recorded real runs of all estimators.",
         note="scale_features is not modelled (no caller uses it); F-C16-prefix (name-prefix collision) is an open known finding, not reachable with the client's frames.",
     ),
+    "C18": dict(
+        engine="controla",
+        technique="TLA+ spec (Persistence.tla: ordered put sequence and local writes per option set / environment / estimator / gate outcome) model-checked by TLC; every exported behaviour replayed through the real client in fresh subprocesses with a recording fake S3; recorded runs validated by Trace_Persistence",
+        design_ref="DESIGN.md §5 C18, docs/controla.md",
+        text="TLC checks OnlyWhatAsked, SaveThenFail, Order, KeyShape on all 800 behaviours (16 option sets x 2 environments x 3 estimators x gate outcomes x national summary); the F7 switch reproduces the KeyShape counterexample; 224 covering behaviours (all 800 in thorough) are replayed through ModelClient.get_estimates in fresh interpreters (APP_ENV is read at import), the recorded ordered put sequence and local files are parsed into the spec's key structure and compared; 24 (72) varied runs with save_output=[] / default must write nothing unasked.",
+        note="HistoricalModelClient._write_evaluation is outside the property and fails on its own (DataFrame not JSON serialisable) - documented, not checked.",
+    ),
     "C19": dict(
         engine="versions",
         technique="TLA+ spec (S3Versions.tla: paging service with arbitrary page cuts, recursive client, download queue with failures) model-checked by TLC; every exported behaviour replayed against the real S3VersionUtil / VersionedDataHandler with scripted fakes; recorded random histories validated by Trace_S3Versions",
         design_ref="DESIGN.md §5 C19, docs/versions.md",
         text="TLC checks ExactWindow, Sampled, OwnStamp, SkipFailures, NoData for every history of <=5 versions (equal timestamps included), every paging, window, sampling step and failure subset (1.05M states; <=6 versions in thorough); all 14,790 exported behaviours are replayed against the real code whose s3 client and transfer manager are scripted fakes following the behaviour's choices; 480 (6,400) random histories of <=40 versions are recorded and validated as behaviours of the specification.",
         note="Listing is newest-first and pages are non-empty prefixes (the service contract); the early stop is admitted, not demanded.",
+    ),
+    "C20": dict(
+        engine="controla",
+        technique="TLA+ spec (FitRetry.tla: sequence of fits, Attempt/Retry with argument records, effective penalty lambda/scale) model-checked by TLC; every exported fault script replayed into the real client with a run-time wrapper around QuantileRegressionSolver.fit; recorded call sequences validated by Trace_FitRetry",
+        design_ref="DESIGN.md §5 C20, docs/controla.md",
+        text="TLC checks RetryArgs, NotFatal, SameTables, NoExtraFits for every position of one fault (median / lower / upper, 1-2 estimands x 1-2 levels) x both failure kinds x nonparametric/gaussian x lambda 0 / >0; the F1 switch reproduces the fatal retry, the lambda switch shows SameTables cannot hold for lambda > 0 with un-normalised weights; all 208 (756 x 2 elections) fault scripts are injected into real client runs, the recorded solver calls (tau, lambda, intercept flag, normalize flag, digests of X/y/weights, outcome) and the table differences against the fault-free run are validated by the trace spec.",
+        note="A second failure on the retry is outside the property; F-C20-lambda (lambda_ > 0: tables differ after the retry) is an open known finding.",
     ),
 }
 
